@@ -1,6 +1,6 @@
 (* C02 — SimpleDMRS serialisation is lossless (token level). *)
 From Coq Require Import List NArith ZArith Bool.
-From PyD Require Import Base.Str Base.Dec Model.Mrs Model.Iso Model.SimpleMrs Model.SimpleDmrs Proofs.SimpleMrsP Proofs.SimpleDmrsP Model.MrsJson Model.DmrsJson Proofs.DmrsJsonP.
+From PyD Require Import Base.Str Base.Dec Model.Mrs Model.Iso Model.SimpleMrs Model.SimpleDmrs Proofs.SimpleMrsP Proofs.SimpleDmrsP Model.MrsJson Model.DmrsJson Proofs.DmrsJsonP Model.Dmrx Proofs.DmrxP.
 Import ListNotations.
 
 (* escaping of constants and of the surface string is inverted by the decoder *)
@@ -53,3 +53,22 @@ Theorem C02_json_from_to_dict : forall p l g,
   d_from_dict (d_to_dict p l g) = Some (proj_jdmrs p l g).
 Proof. exact d_from_to_dict. Qed.
 Print Assumptions C02_json_from_to_dict.
+
+(* DMRX at the level of the XML element tree (_encode_dmrs / _decode_dmrs): for any predicate
+   oracles (predicate.split / predicate.create) such that create undoes split on the predicates
+   of the structure, decoding the encoded element gives back the DMRS - node identifiers,
+   predicates, types, properties (names in upper case, values in lower case), constants,
+   alignments, links, top, index, surface string and identifier - with exactly the properties
+   (and the type stored with them) or the alignments removed when they are suppressed; a node
+   without an alignment is written and read as <-1:-1> *)
+Theorem C02_dmrx_from_to_element : forall psplit pcreate p l g,
+  Forall (node_ok psplit pcreate) (g_nodes g) -> Forall link_ok (g_links g) ->
+  decode_dmrs pcreate (encode_dmrs psplit p l g) = Some (proj_xdmrs p l g).
+Proof. exact dmrx_roundtrip. Qed.
+Print Assumptions C02_dmrx_from_to_element.
+
+Theorem C02_dmrx_nonvacuous :
+  Forall (node_ok ex_split ex_create) (g_nodes ex_dmrs) /\ Forall link_ok (g_links ex_dmrs) /\
+  decode_dmrs ex_create (encode_dmrs ex_split true true ex_dmrs) = Some (proj_xdmrs true true ex_dmrs).
+Proof. exact dmrx_example. Qed.
+Print Assumptions C02_dmrx_nonvacuous.
